@@ -1062,6 +1062,72 @@ def extra_family_spellings():
     ]
 
 
+def kwarg_variant_oracle():
+    """op-specific keyword options of the ufuncs (beyond out/where/dtype; today: absolute(nan_to_num=)) must reach the
+    operation through every spelling that accepts them: plain call, out=<ndarray>, out=<Tensor>, out=(<Tensor>,),
+    where=, in place.  Operands hold the points where the option matters (exact zeros).  -> (failures, facts)"""
+    import inspect
+
+    fails, facts = [], {}
+    std = {"self", "x1", "x2", "out", "where", "dtype"}
+    for npuf, mguf in tb._REGISTERED_UFUNC.items():
+        op = getattr(mguf, "_wrapped_op", None)
+        if op is None:
+            continue
+        try:
+            params = inspect.signature(op.__call__).parameters
+        except (TypeError, ValueError):
+            continue
+        extras = {k: v.default for k, v in params.items() if k not in std and v.default is not inspect.Parameter.empty
+                  and isinstance(v.default, bool)}
+        if not extras or npuf.nin != 1:
+            continue
+        name = npuf.__name__
+        for kw, default in extras.items():
+            opt = {kw: (not default)}
+            data = np.array([0.0, 2.0, -2.0, -0.0, 0.0, 1.5])
+
+            def grads(spell):
+                x = mg.tensor(data.copy())
+                r = spell(x)
+                (r * 2.0).sum().backward()
+                return None if x.grad is None else np.array(x.grad), np.array(r.data)
+
+            spellings = [
+                ("plain", lambda x: mguf(x, **opt)),
+                ("out=ndarray", lambda x: mguf(x, out=np.zeros(6), **opt)),
+                ("out=Tensor", lambda x: mguf(x, out=mg.zeros(6, dtype=float), **opt)),
+                ("out=(Tensor,)", lambda x: mguf(x, out=(mg.zeros(6, dtype=float),), **opt)),
+                ("where=,out=Tensor", lambda x: mguf(x, where=np.ones(6, bool), out=mg.zeros(6, dtype=float), **opt)),
+                ("where=,out=ndarray", lambda x: mguf(x, where=np.ones(6, bool), out=np.zeros(6), **opt)),
+                ("in-place on a copy", lambda x: mguf(x, out=+x, **opt)),
+            ]
+            ref = None
+            for lab, sp in spellings:
+                try:
+                    g, v = grads(sp)
+                except Exception as e:  # noqa: BLE001
+                    g, v = f"raises {type(e).__name__}", None
+                facts[f"{name}({kw}={not default}) {lab}"] = g if isinstance(g, str) else (None if g is None else g.tolist())
+                if ref is None:
+                    ref = (g, v)
+                    dflt, _ = grads(lambda x: mguf(x))
+                    if isinstance(g, str) or (g is not None and dflt is not None and np.array_equal(g, dflt, equal_nan=True)):
+                        # the option makes no observable difference at these points: nothing to compare
+                        ref = None
+                        break
+                    continue
+                same = (isinstance(g, str) and g == ref[0]) or (not isinstance(g, str) and not isinstance(ref[0], str) and (
+                    (g is None and ref[0] is None) or (g is not None and ref[0] is not None and np.array_equal(g, ref[0], equal_nan=True))))
+                if not same or (v is not None and ref[1] is not None and not np.array_equal(v, ref[1], equal_nan=True)):
+                    fails.append({"family": name, "a": {"label": f"mg.{name}(a, {kw}={not default}) [{lab}]", "probe": "T"},
+                                  "b": {"label": "plain call"}, "kind": "kwarg-variant", "fn": f"{name}:{kw}:{lab}",
+                                  "what": "gradients-or-values",
+                                  "got": g if isinstance(g, str) else (None if g is None else str(g.tolist())),
+                                  "ref": ref[0] if isinstance(ref[0], str) else (None if ref[0] is None else str(ref[0].tolist()))})
+    return fails, facts
+
+
 def family_oracle():
     """-> list of failures (dicts) for the const-only / no-diff clauses, plus facts for the evidence"""
     fails, facts = [], {}
@@ -1077,6 +1143,30 @@ def family_oracle():
         for k, v in d.items():
             if v != "ok":
                 fails.append({"family": name, "a": {"label": f"np.{name}({k})", "probe": "T" if k == "nonconst" else "Tc"}, "b": {"label": "numpy"}, "what": v, "kind": "family", "fn": name})
+    # ... and with graph tracking suspended just the same (a non-constant tensor is never silently dropped)
+    family_fns = {f.__name__: f for f in list(FAMILY_UFUNCS) + list(tb._REGISTERED_CONST_ONLY_UFUNC)}
+    for name, f in sorted(family_fns.items()):
+        for mode in ("context", "decorator"):
+            try:
+                if mode == "context":
+                    with mg.no_autodiff:
+                        r = _call_registry_fn(f, const=False)
+                else:
+                    r = mg.no_autodiff(lambda: _call_registry_fn(f, const=False))()
+                facts[f"np.{name}(non-constant) inside no_autodiff [{mode}]"] = "returned " + type(r).__name__
+                fails.append({"family": name, "a": {"label": f"np.{name}(non-constant) inside no_autodiff ({mode})", "probe": "T"}, "b": {"label": "raise"},
+                              "what": "accepted-non-constant-untracked:" + type(r).__name__, "kind": "family-untracked", "fn": f"{name}:{mode}"})
+            except Exception as e:  # noqa
+                facts[f"np.{name}(non-constant) inside no_autodiff [{mode}]"] = "raises " + type(e).__name__
+    for lab, f in extra_family_spellings():
+        a = _fresh(False)
+        try:
+            with mg.no_autodiff:
+                r = f(a)
+            fails.append({"family": "rounding/modulo", "a": {"label": lab + " inside no_autodiff", "probe": "T"}, "b": {"label": "raise"},
+                          "what": "accepted-non-constant-untracked:" + type(r).__name__, "kind": "extra-untracked", "fn": lab})
+        except Exception as e:  # noqa
+            facts[lab + " [inside no_autodiff]"] = "raises " + type(e).__name__
     for lab, f in extra_family_spellings():
         a = _fresh(False)
         try:
@@ -1146,6 +1236,10 @@ def run(ctx: Ctx) -> Outcome:
     ffails, facts, reg = family_oracle()
     out.evaluations += len(reg["details"]) * 2 + len(facts)
     fails += ffails
+    kfails, kfacts = kwarg_variant_oracle()
+    out.evaluations += len(kfacts)
+    fails += kfails
+    out.extra["op_specific_keyword_options"] = kfacts
     # ---- the recorded table must cover everything that is registered
     if missing:
         out.corr_breaks.append(CorrBreak("unprobed __array_function__ overrides", {"functions": missing}))
@@ -1195,7 +1289,12 @@ def route_disagreements(routes):
 
 def replay(data) -> bool:
     f = data["replay"]
-    if f.get("kind") in ("family", "extra", "compare"):
+    if f.get("kind") == "kwarg-variant":
+        fails, facts = kwarg_variant_oracle()
+        hit = [x for x in fails if signature(x) == data["signature"]]
+        print("observed:", [(x["a"]["label"], x["what"]) for x in hit] or "holds")
+        return bool(hit)
+    if f.get("kind") in ("family", "extra", "compare", "family-untracked", "extra-untracked"):
         fails, facts, reg = family_oracle()
         hit = [x for x in fails if signature(x) == data["signature"]]
         print("expected: the rounding/modulo family raises on non-constant tensors and works on constant ones; "
